@@ -9,5 +9,7 @@ CONSTANTS
   Depth = 30
   CodeIds = {1, 2}
   Blocks = TRUE
+  Ops = {"setbalance", "setvalue", "deletevalue", "initcontract", "touch", "setblock", "deploy", "accept", "snapshot", "reset", "clearcache", "flush", "reload"}
+  SnapSlots = {1, 2}
   HistOn = TRUE
 INVARIANT Emit
